@@ -9,7 +9,7 @@ PROP = "C12"
 # longest path x 4, plus the transcendental calls); `arc`/`det`/`dpos`/`blor` involve binary32 coordinates (R*sin, rounding of
 # crystal positions to 0.001 mm) whose error is relative to the ring radius, hence the larger constants.
 C_KIND = {"coord": 64.0, "lor": 64.0, "tofb": 64.0, "det": 256.0, "ovl": 64.0, "arc": 8192.0, "dpos": 64.0, "blor": 4096.0,
-          "lc2n": 64.0, "lnmk": 64.0, "ln2c": 64.0}
+          "lc2n": 64.0, "lnmk": 64.0, "ln2c": 64.0, "acsu": 1.0, "acrow": 8192.0}
 
 
 def _f(bits):
@@ -49,7 +49,7 @@ def compare(op, impl, model):
         # the model lists every result that a correctly rounded nearest-detector search may return (ties of the rounding)
         cands = [c.strip() for c in model.split("|")]
         return impl in cands
-    if kind in ("coord", "tofb", "dpos", "ovl", "arc"):
+    if kind in ("coord", "tofb", "dpos", "ovl", "arc", "acsu", "acrow"):
         return _floats_ok(kind, impl, model)
     if kind == "det":
         return _floats_ok(kind, impl, model, skip=1)
@@ -122,7 +122,18 @@ def main(tier, replay):
         "angles / axial position / obliqueness of the detector-based geometry of the same scanner, antisymmetry/monotonicity, uniform sampling, TOF "
         "table (cylindrical, blocks, generic), arc correction of uniform/random rows; the six ArcCorrection overloads (Sinogram, Viewgram, "
         "RelatedViewgrams with Cartesian-grid symmetries, SegmentBySinogram, SegmentByView, ProjData; value-returning and in-place forms) on "
-        "multi-ring, view-mashed, span-3 and TOF data must equal the sinogram-by-sinogram result bit for bit; LOR representation changes "
+        "multi-ring, view-mashed, span-3 and TOF data must equal the sinogram-by-sinogram result bit for bit; ONE ArcCorrection object re-used: "
+        "histories set_up(A) -> use -> set_up(B) -> use -> A -> C -> B on the same object, B/C differing from A in exactly one of ring radius, "
+        "detectors per ring (angular increment) with the same tangential range, tangential range, default bin size (also 0 = central bin size), "
+        "set_up overload (all three) / requested size and bin size, rings/span; after every set_up the re-used object must report the geometries of, "
+        "and give bit for bit the rows of, a FRESH object set up with the same arguments (every do_arc_correction overload: Sinogram, Viewgram, "
+        "RelatedViewgrams, SegmentBySinogram, SegmentByView, ProjData; value-returning and in-place), the integral / uniform-to-uniform oracles run on "
+        "its rows, set_up(proj_data_info) must choose 2 ceil(max_s / bin size) + 1 positions, and the Lean model answers the history as a state machine "
+        "(`acnew`/`acsu`/`acrow`: the driver keeps the cached box edges of the object between lines; `acsu` = arc-corrected range and sampling derived "
+        "by the overload, exact); ProjDataInfo objects whose lazily computed axial tables / TOF bin table already exist and that are then changed "
+        "(reduce_segment_range, set_ring_spacing there and back, set_tof_mash_factor twice; cylindrical arc-corrected and not, span 1/3, TOF) must "
+        "report bit for bit the coordinates (get_s/phi/m/t/tantheta/k, samplings, TOF boundaries) of a fresh object of the final geometry (oracle only); "
+        "LOR representation changes "
         "(constructors, change_representation, get_intersections_with_cylinder between all four LOR types, also from stretched points) must keep "
         "the directed line.  Operation lines (a seeded subset of those bins + TOF table + crystal positions + overlap_interpolate/ArcCorrection "
         "rows + LOR conversions on a grid of pi/64) are answered by the Lean model and compared: integers and bins exactly (`rt`/`rtx`/`fbin`: "
@@ -133,7 +144,7 @@ def main(tier, replay):
                         "bins of arc-corrected data with |s| >= 0.995 R (outside the detector ring) are skipped",
                         "detector pairs on the same flat bucket of a blocks scanner (degenerate lines along the bucket face) are skipped",
                         "segments clipped to a single ring difference with the axial size of a compressed segment (C01 known finding) are skipped",
-                        "the Lean model describes the code with the fixes build/fixes/C12-1..8 (coincident nearest detectors -> miss; max_delta >= span/2; "
+                        "the Lean model describes the code with the fixes docs/fixes/C12-1..8 (coincident nearest detectors -> miss; max_delta >= span/2; "
                         "TOF in arc-corrected get_bin; generic get_tantheta over the chord length; last arc-corrected box one bin wide; get_sino_coords "
                         "direction flags; arc-corrected get_bin view 2*num_views -> 0; ArcCorrection keeps the TOF mashing factor); for C12-6/C12-7 the harness "
                         "probes through the real API whether the code under test contains the fix (line `lorfix`) and the model follows it, the oracle "
@@ -148,6 +159,10 @@ def main(tier, replay):
                         "crystal-map look-up of ProjDataInfoGenericNoArcCorr::get_bin, overlap_interpolate/ArcCorrection on rows and all floating-point "
                         "coordinates are not theorems: correspondence (rows: exact rational model + forward error bound) and oracle only; the ArcCorrection "
                         "overloads other than Sinogram are compared with the Sinogram overload (oracle), not modelled separately",
+                        "re-used ArcCorrection objects: the theorem `C12_arccorrection_reused_object_eq_fresh` is about the model's state machine, whose "
+                        "set_up assigns every cached member as the C++ code does (transcription tied to the code by the `acsu`/`acrow` correspondence and "
+                        "the bitwise comparison with a fresh object); non-TOF histories of five set_up calls; the number of positions chosen by "
+                        "set_up(proj_data_info) is data for the model (checked by the C++ oracle against 2 ceil(max_s / bin size) + 1 in binary64)",
                         "round trip theorems are about exact angles with an arbitrary choice at rounding ties; the correspondence accepts any result in the model's candidate set"]
     if audit:
         vlib.proof_coverage(chk, audit, "cd lean && lake build StirVerif stirdriver && lake env lean ../build/out/Audit_C12.lean")
